@@ -1133,11 +1133,27 @@ fn scen_restart_same_token(ctx: &Ctx, out: &mut Outcome, r: &mut Rng, run_seed: 
         let _ = srv.update_client(id); // keep-alives to a dead process
     }
     let client_clock = if r.chance(1, 2) { srv.now } else { ms(r.below(5000)) };
-    let mut b_cli = match Cli::new(client_clock, m, caddr) {
+    // variant (own random stream): the new process got another UDP port and a fresh token for the same client id (the
+    // usual restart of a game client behind a matchmaker). While the dead session is still held the server stays silent
+    // towards the newcomer; once it is timed out the next request is challenged and the client gets in
+    let mut vr = Rng::new(run_seed ^ 0x4E57_ADD2);
+    let new_addr = vr.chance(1, 2);
+    let (m, caddr_b) = if new_addr {
+        (mint(&mut vr, srv.now.as_secs(), protocol, 120, id, tau, &[saddr], None, &key), addr4(5, 0, 4001 + vr.below(20) as u16))
+    } else {
+        (m, caddr)
+    };
+    let mut b_cli = match Cli::new(client_clock, m, caddr_b) {
         Ok(c) => c,
         Err(e) => return out.inconclusive(&format!("C18 restart: client setup: {e}")),
     };
-    hist.push(format!("restart {} ms later with the same token at the same address (server still holds the dead session: {})", waited, srv.s.is_client_connected(id)));
+    let caddr = caddr_b;
+    hist.push(format!(
+        "restart {} ms later with {} (server still holds the dead session: {})",
+        waited,
+        if new_addr { "a fresh token for the same client id from another port" } else { "the same token at the same address" },
+        srv.s.is_client_connected(id)
+    ));
     let budget_ms = tau as u64 * 1000 + 4 * 250 + 10 * dt.as_millis() as u64;
     let mut t = 0u64;
     let mut freed_at: Option<u64> = None;
@@ -1176,7 +1192,7 @@ fn scen_restart_same_token(ctx: &Ctx, out: &mut Outcome, r: &mut Rng, run_seed: 
             break;
         }
     }
-    out.count("restart.same_token_same_address");
+    out.count(if new_addr { "restart.fresh_token_same_id_new_address" } else { "restart.same_token_same_address" });
     out.eval(crate::rng::mix(&[0x5A3E, run_seed, tau as u64, live]), freed_at.is_some());
     hist.push(format!("+{} ms: client connected={} connecting={} reason={:?}; server has client={}", t, b_cli.c.is_connected(), b_cli.c.is_connecting(), b_cli.c.disconnect_reason(), srv.s.is_client_connected(id)));
     match connected_at {
@@ -1184,10 +1200,10 @@ fn scen_restart_same_token(ctx: &Ctx, out: &mut Outcome, r: &mut Rng, run_seed: 
         None => {
             out.violation(
                 ctx,
-                "C18/handshake-bound-exceeded/restart-same-token",
+                if new_addr { "C18/handshake-bound-exceeded/restart-new-address" } else { "C18/handshake-bound-exceeded/restart-same-token" },
                 "an honest client holding a valid token becomes connected on both sides within a bounded time whenever fewer clients are connected than the limit",
-                format!("restarted client (same token, same address) after {} ms: connected={} reason={:?}; the server freed the dead session at {:?} ms and has the client={}", t, b_cli.c.is_connected(), b_cli.c.disconnect_reason(), freed_at, srv.s.is_client_connected(id)),
-                json!({"property": "C18", "engine": ctx.engine, "run_seed": format!("{:#x}", run_seed), "scenario": "restart-same-token", "timeout_seconds": tau, "history": hist}),
+                format!("restarted client (see history) after {} ms: connected={} reason={:?}; the server freed the dead session at {:?} ms and has the client={}", t, b_cli.c.is_connected(), b_cli.c.disconnect_reason(), freed_at, srv.s.is_client_connected(id)),
+                json!({"property": "C18", "engine": ctx.engine, "run_seed": format!("{:#x}", run_seed), "scenario": if new_addr { "restart-new-address" } else { "restart-same-token" }, "timeout_seconds": tau, "history": hist}),
             );
         }
     }
